@@ -5,7 +5,9 @@
    on the dyadic inputs; tied to the compiled binary by the correspondence run (harness/props/C11.py). *)
 From Coq Require Import ZArith List Bool.
 Import ListNotations.
-Require Import MD.Neigh.Model MD.Neigh.NeighborsProofs MD.Whole.Model MD.Whole.Proofs MD.Whole.Walk MD.Gen.WholeWalk.
+From Coq Require Import Permutation.
+Require Import MD.Neigh.Model MD.Neigh.NeighborsProofs MD.Whole.Model MD.Whole.Proofs MD.Whole.Walk MD.Gen.WholeWalk
+  MD.Whole.Anchors MD.Whole.AnchorsProofs MD.Gen.WholeDispatch MD.Whole.Molecules MD.Whole.MoleculesSweep.
 Open Scope Z_scope.
 
 (* make_whole, whatever the bond list: every atom ends at its original position minus an integer combination
@@ -176,3 +178,104 @@ Example certificate_hypotheses_satisfiable :
   makes_whole w_box 300 1 w_xyz (fun x => match x with 1%nat => (1, 0, 0) | _ => (0, 0, 0) end) (map norm_bond w_bonds).
 Proof. exact ex_certificate. Qed.
 Print Assumptions certificate_hypotheses_satisfiable.
+
+(* ===================================================================================================================
+   The argument handling of Trajectory.image_molecules / Topology.guess_anchor_molecules (MD.Whole.Anchors) *)
+
+(* guessed anchors: molecules of the bond graph, each strictly larger than the size threshold; the FIRST anchor (where the
+   clustering of image_molecules.pxi starts: "the largest molecule") is a largest molecule of the system *)
+Theorem guessed_anchors_are_large_molecules : forall n bonds anchors,
+  (forall b, In b bonds -> (fst b < n)%nat /\ (snd b < n)%nat) ->
+  guess_anchor_molecules n bonds = Some anchors ->
+  anchors <> [] /\
+  (forall m, In m anchors -> In m (find_molecules n bonds) /\
+                             (anchor_cutoff (sort_mols (find_molecules n bonds)) < length m)%nat) /\
+  (forall m, In m (find_molecules n bonds) -> (length m <= length (hd [] anchors))%nat).
+Proof. exact (fun n bonds anchors _ => guessed_anchors_spec n bonds anchors). Qed.
+Print Assumptions guessed_anchors_are_large_molecules.
+
+(* other_molecules=None: anchors and others together are the molecules of the system, each exactly once *)
+Theorem default_others_complement : forall n bonds,
+  (forall b, In b bonds -> (fst b < n)%nat /\ (snd b < n)%nat) -> forall anchors,
+  guess_anchor_molecules n bonds = Some anchors ->
+  Permutation (anchors ++ default_others n bonds anchors) (find_molecules n bonds).
+Proof. exact AnchorsProofs.default_others_complement. Qed.
+Print Assumptions default_others_complement.
+
+(* the heuristic refuses (ValueError) whenever all molecules have one size, e.g. a system that is a single molecule *)
+Theorem guess_refuses_equal_sizes : forall n bonds k,
+  (forall m, In m (find_molecules n bonds) -> length m = k) -> guess_anchor_molecules n bonds = None.
+Proof. exact AnchorsProofs.guess_refuses_equal_sizes. Qed.
+Print Assumptions guess_refuses_equal_sizes.
+
+(* which bond walk reaches the kernel: none with make_whole=False (an explicit sorted_bonds is dropped), else the caller's
+   sorted_bonds verbatim or the parent-first walk; ValueError exactly without a unit cell / without a guessable anchor *)
+Theorem image_plan_make_whole_false : forall n bonds anchors others sorted anchors' others' walk,
+  image_molecules_plan true n bonds (mkImArgs anchors others sorted false) = ImPlan anchors' others' walk -> walk = None.
+Proof. exact plan_make_whole_false. Qed.
+Print Assumptions image_plan_make_whole_false.
+
+Theorem image_plan_make_whole_true : forall n bonds anchors others sorted anchors' others' walk,
+  image_molecules_plan true n bonds (mkImArgs anchors others sorted true) = ImPlan anchors' others' walk ->
+  walk = Some (match sorted with Some l => l | None => pfb_walk n bonds end).
+Proof. exact plan_make_whole_true. Qed.
+Print Assumptions image_plan_make_whole_true.
+
+Theorem image_plan_refuses_iff : forall has_cell n bonds a,
+  image_molecules_plan has_cell n bonds a = ImValueError <->
+  has_cell = false \/ (ia_anchors a = None /\ guess_anchor_molecules n bonds = None).
+Proof. exact plan_refuses_iff. Qed.
+Print Assumptions image_plan_refuses_iff.
+
+(* END TO END with all arguments defaulted and make_whole=False: lattice moves plus one common translation, and every
+   molecule of the system, anchor or not, moved as a rigid unit -- no hypothesis about the molecules is left *)
+Theorem image_default_arguments_rigid : forall B n bonds xyz st SA NA,
+  (forall b, In b bonds -> (fst b < n)%nat /\ (snd b < n)%nat) -> length xyz = n ->
+  image_molecules_call B n bonds (mkImArgs None None None false) xyz = Some (st, SA, NA) ->
+  tracks B xyz st /\
+  forall m, In m (find_molecules n bonds) -> forall a b, In a m -> In b m -> st_shift st a = st_shift st b.
+Proof. exact image_default_rigid. Qed.
+Print Assumptions image_default_arguments_rigid.
+
+Example anchors_model_runs :
+  guess_anchor_molecules 14 anch_bonds = Some [[3; 2; 1; 0]]%nat /\
+  length (default_others 14 anch_bonds [[3; 2; 1; 0]]%nat) = 10%nat /\
+  guess_anchor_molecules 4 anch_bonds = None /\
+  image_molecules_plan true 14 anch_bonds (mkImArgs None None (Some [(0, 1)]%nat) false) =
+    ImPlan [[3; 2; 1; 0]]%nat (default_others 14 anch_bonds [[3; 2; 1; 0]]%nat) None.
+Proof. exact anchors_example. Qed.
+Print Assumptions anchors_model_runs.
+
+(* the argument handling read off today's source of Trajectory.make_molecules_whole / image_molecules by the translator
+   (coq/Gen/WholeDispatch.v, regenerated on every run) is the one MD.Whole.Anchors implements: unit-cell guard, copy unless
+   inplace, default bond walk (dropped for make_whole=False), kernel run on the coordinates and cells of the result with
+   the anchors' and others' atom indices, what is returned, default anchors and default others *)
+Theorem source_dispatch_is_modelled : gen_dispatch_spec = model_dispatch_spec.
+Proof. reflexivity. Qed.
+Print Assumptions source_dispatch_is_modelled.
+
+(* Topology.find_molecules AS A LOOP (MD.Whole.Molecules: atom_bonds, atom_stack / neighbor_stack, statement by statement)
+   returns the molecules of the function model above -- same molecules, same order, same atoms.  BOUNDED (exhaustive
+   evaluation, the bound is in the name): every bond graph on 4 atoms with its bonds added in every order (1957 lists), every
+   list of at most 4 distinct bonds on 5 atoms (5861 lists), of at most 3 on 6 atoms.  PARTIAL: the refinement for every
+   bond list is not proved; beyond the bound the loop model is compared with the implementation and with the function model
+   on every generated topology of the correspondence run. *)
+Theorem find_molecules_loop_agrees_all_graphs_on_4_atoms :
+  forallb (loop_agrees 4) (inj_lists 6 (all_edges 4)) = true.
+Proof. exact loop_agrees_4_atoms. Qed.
+Print Assumptions find_molecules_loop_agrees_all_graphs_on_4_atoms.
+
+Theorem find_molecules_loop_agrees_5_atoms_upto_4_bonds :
+  forallb (loop_agrees 5) (inj_lists 4 (all_edges 5)) = true.
+Proof. exact loop_agrees_5_atoms_4_bonds. Qed.
+Print Assumptions find_molecules_loop_agrees_5_atoms_upto_4_bonds.
+
+Theorem find_molecules_loop_agrees_6_atoms_upto_3_bonds :
+  forallb (loop_agrees 6) (inj_lists 3 (all_edges 6)) = true.
+Proof. exact loop_agrees_6_atoms_3_bonds. Qed.
+Print Assumptions find_molecules_loop_agrees_6_atoms_upto_3_bonds.
+
+Example find_molecules_loop_sweep_is_not_empty :
+  length (inj_lists 6 (all_edges 4)) = 1957%nat /\ length (inj_lists 4 (all_edges 5)) = 5861%nat.
+Proof. exact sweep_count. Qed.
+Print Assumptions find_molecules_loop_sweep_is_not_empty.
